@@ -64,15 +64,14 @@ func c10Anchored(p *Prog, r *Report) {
 		}
 		pcl := sc.Ev("call", "ProtocolBase.Close")
 		ca := sc.Ev("call", "core.(*pipeList).CloseAll")
+		// on every path: from the point where the socket is marked closed, every path to a
+		// return passes the call (whatever form the loops in between take)
 		onlyLoopGuards := func(s Sel) bool {
-			for _, e := range s {
-				for _, g := range e.Guard {
-					if !strings.Contains(g, "rangeindex") {
-						return false
-					}
-				}
+			if len(s) != 1 || len(st) != 1 {
+				return false
 			}
-			return len(s) == 1
+			ok, _ := q.FollowedBy(st, s)
+			return ok
 		}
 		q.Req(R, "closes-protocol", onlyLoopGuards(pcl), pcl.Pos(p), "proto.Close() on every path", "socket.Close does not call proto.Close() on every path")
 		q.Req(R, "closes-all-pipes", onlyLoopGuards(ca), ca.Pos(p), "pipes.CloseAll() on every path", "socket.Close does not call pipes.CloseAll() on every path")
